@@ -135,10 +135,17 @@ def cases(draw):
         k = draw(st.integers(0, len(macros) - 1))
         old = macros[k]["name"]
         new = old.lstrip("@")
-        macros[k] = dict(macros[k], name=new)
-        if draw(st.booleans()):
-            factored = _rename(factored, old, new)
-            macros = [dict(m, pattern=_rename(m["pattern"], old, new)) for m in macros]
+        twin = draw(st.integers(0, 2))
+        if twin == 0:
+            # ... or the well-named definition stays where it is and the ill-named one is a second entry with the same name minus the
+            # '@', after it or before it (`@ptr` in the library, `ptr` in the rule file): still a definition whose name lacks '@'
+            extra_def = dict(macros[k], name=new)
+            macros.insert(draw(st.integers(0, len(macros))), extra_def)
+        else:
+            macros[k] = dict(macros[k], name=new)
+            if twin == 1:
+                factored = _rename(factored, old, new)
+                macros = [dict(m, pattern=_rename(m["pattern"], old, new)) for m in macros]
         expect_name = None
     in_file, files = split_definitions(draw, macros)
     if fault == "defined-but-applied-earlier":
@@ -239,6 +246,8 @@ def evaluate(case):
             ("unused-formal-inner", {"@yargs_": {"x_": "%ebx", "y_": ref}}),
             ("unused-formal-sibling", {"@yargs_": None, "x_": "%ebx", "y_": ref}),
             ("beside-string-macro-times", {"@ystr_": {"times": 1}, "note": ref}),
+            ("surplus-in-list-under-args-macro", {"@yargs_": ["%ebx", "%ecx", ref]}),
+            ("surplus-in-list-under-args-macro", {"@yargs_": ["%ebx", "%ecx", "zz", ref, "%eax"]}),
         ]
         shape, inv = shapes[h % len(shapes)]
         ev.tags += ["lost-reference=" + kind, "lost-shape=" + shape]
